@@ -153,6 +153,7 @@ func c16d16BB6(ctx *Ctx) int {
 		{mpExt(12, 3, []*mpItem{mpInt(5), mpInt(2), mpInt(6), mpInt(2), mpInt(1), mpBool(false)}, nil), ls},
 		{mpExt(12, 3, []*mpItem{mpInt(5), mpInt(1), mpInt(5), mpInt(3), mpInt(6), mpInt(3)}, nil), ls}, // nullness unknown: stays unknown
 		{mpExt(12, 2, []*mpItem{mpInt(5), mpInt(2), mpInt(6), mpInt(2)}, nil), ls},
+		{mpExt(12, 3, []*mpItem{mpInt(1), mpBool(false), mpInt(5), mpInt(1), mpInt(6), mpInt(1)}, nil), ls}, // the smallest: one element
 		{mpExt(12, 3, []*mpItem{mpInt(1), mpBool(false), mpInt(5), mpInt(0), mpInt(6), mpInt(0)}, nil), ls},           // the empty list: minLen > 0 is false
 		{mpExt(12, 3, []*mpItem{mpInt(1), mpBool(false), mpInt(5), mpInt(2), mpInt(6), mpInt(3)}, nil), ls},           // bounds differ
 		{mpExt(12, 3, []*mpItem{mpInt(1), mpBool(false), mpInt(5), mpInt(2), mpInt(6), mpInt(2)}, nil), cty.Set(cty.String)}, // not a list
